@@ -15,11 +15,11 @@ const (
 	vbTagHi = 2147483647
 )
 
-func vbNondetSimpleRanges(n int) []simpleTagRange {
+func vbNondetSimpleRanges(n int, lo, hi int) []simpleTagRange {
 	out := make([]simpleTagRange, n)
 	for i := 0; i < n; i++ {
-		s := verifNondetInt(vbTagLo, vbTagHi)
-		e := verifNondetInt(vbTagLo, vbTagHi)
+		s := verifNondetInt(lo, hi)
+		e := verifNondetInt(lo, hi)
 		verifAssume(s <= e)
 		out[i] = simpleTagRange{s, e}
 	}
@@ -43,11 +43,15 @@ func refBrkInRanges(x int, rs []simpleTagRange) bool {
 //   - the missing ranges are well-formed, ascending and disjoint.
 func VerifLemma_C03F_TagRangeKernel() {
 	n := verifNondetChoice(verifParam("NC") + 1)
-	cur := vbNondetSimpleRanges(n)
-	ps := verifNondetInt(vbTagLo, vbTagHi)
-	pe := verifNondetInt(vbTagLo, vbTagHi)
+	lo, hi := vbTagLo, vbTagHi
+	if w := verifParam("W"); w > 0 && w < 32 {
+		lo, hi = -(1 << (w - 1)), 1<<(w-1)-1
+	}
+	cur := vbNondetSimpleRanges(n, lo, hi)
+	ps := verifNondetInt(lo, hi)
+	pe := verifNondetInt(lo, hi)
 	verifAssume(ps <= pe)
-	x := verifNondetInt(vbTagLo, vbTagHi)
+	x := verifNondetInt(lo, hi)
 
 	// collapseRanges sorts a private copy; keep the original for the reference.
 	orig := make([]simpleTagRange, n)
@@ -71,6 +75,60 @@ func VerifLemma_C03F_TagRangeKernel() {
 		verifCover("witness tag was removed")
 		verifAssert(inMiss, "removed tag lies in a returned missing range")
 		verifAssert(len(miss) > 0, "removed tag => findMissing non-empty")
+	}
+	if inMiss {
+		verifAssert(inPrev, "missing range within the previous range")
+		verifAssert(!inCur, "missing range disjoint from the current ranges")
+	}
+	for i := 0; i < len(miss); i++ {
+		verifAssert(miss[i][0] <= miss[i][1], "missing range well-formed")
+		if i > 0 {
+			verifAssert(miss[i-1][1] < miss[i][0], "missing ranges ascending and disjoint")
+		}
+	}
+}
+
+// VerifLemma_C03F_CollapseRanges: collapseRanges alone, for up to NC ranges: the result is well-formed, ascending,
+// pairwise non-adjacent, and covers exactly the same tags (witness x universally quantified).
+func VerifLemma_C03F_CollapseRanges() {
+	n := verifNondetChoice(verifParam("NC") + 1)
+	cur := vbNondetSimpleRanges(n, vbTagLo, vbTagHi)
+	x := verifNondetInt(vbTagLo, vbTagHi)
+	orig := make([]simpleTagRange, n)
+	copy(orig, cur)
+	col := collapseRanges(cur)
+	verifCover("collapsed")
+	verifAssert((len(col) == 0) == (n == 0), "empty iff input empty")
+	for i := 0; i < len(col); i++ {
+		verifAssert(col[i][0] <= col[i][1], "collapsed range well-formed")
+		if i > 0 {
+			verifAssert(col[i-1][1]+1 < col[i][0], "collapsed ranges ascending and not adjacent")
+		}
+	}
+	verifAssert(refBrkInRanges(x, col) == refBrkInRanges(x, orig), "collapse preserves the union")
+}
+
+// VerifLemma_C03F_FindMissing: findMissing over *collapsed* ranges (precondition = the postcondition that
+// VerifLemma_C03F_CollapseRanges establishes: well-formed, ascending, non-adjacent), up to NM of them:
+// returned ranges = prev \ union(col), well-formed, ascending, disjoint.
+func VerifLemma_C03F_FindMissing() {
+	m := verifNondetChoice(verifParam("NM") + 1)
+	col := vbNondetSimpleRanges(m, vbTagLo, vbTagHi)
+	for i := 1; i < m; i++ {
+		verifAssume(col[i-1][1]+1 < col[i][0])
+	}
+	ps := verifNondetInt(vbTagLo, vbTagHi)
+	pe := verifNondetInt(vbTagLo, vbTagHi)
+	verifAssume(ps <= pe)
+	x := verifNondetInt(vbTagLo, vbTagHi)
+	miss := findMissing(ps, pe, col)
+	verifCover("findMissing returned")
+	inCur := refBrkInRanges(x, col)
+	inPrev := ps <= x && x <= pe
+	inMiss := refBrkInRanges(x, miss)
+	if inPrev && !inCur {
+		verifCover("witness tag was removed")
+		verifAssert(inMiss, "removed tag lies in a returned missing range")
 	}
 	if inMiss {
 		verifAssert(inPrev, "missing range within the previous range")
